@@ -182,6 +182,7 @@ def do_tables(case, rec, rng):
 
     ws = Workspace()
     shapes = []
+    dgrp = None
     for ti in range(case["count"]):
         rows, flags = rand_table(rng, ti)
         collar = [f32(rng.choice([0.0, 1000.5, -250.25])), f32(rng.choice([0.0, 5e5, -3.5])), f32(rng.choice([0.0, 312.5]))]
@@ -193,7 +194,17 @@ def do_tables(case, rec, rng):
             rec.see("tables-single-row")
         if flags["first0"]:
             rec.see("tables-first-depth-zero")
-        hole = Drillhole.create(ws, collar=collar, surveys=np.array(rows, dtype=float))
+        # the hole as a plain object or inside a drillhole group (concatenated storage), the table as an array or as a list of rows
+        how = ti % 4
+        if how in (2, 3):
+            from geoh5py.groups import DrillholeGroup
+
+            if dgrp is None:
+                dgrp = DrillholeGroup.create(ws, name="dg")
+            hole = Drillhole.create(ws, parent=dgrp, name=f"t{ti}", collar=collar, surveys=np.array(rows, dtype=float) if how == 2 else [list(r) for r in rows])
+            rec.see("tables-in-drillhole-group" + (":list-of-rows" if how == 3 else ""))
+        else:
+            hole = Drillhole.create(ws, collar=collar, surveys=np.array(rows, dtype=float) if how == 0 else [list(r) for r in rows])
         scale = max(abs(c) for c in collar) + rows[-1][0] + 200.0
         tag = flags["style"]
         depths_all = sorted({r[0] for r in rows})
